@@ -7,6 +7,7 @@ import TnVerif.Model.Index
 import TnVerif.Model.Assign
 import TnVerif.Model.Tools
 import TnVerif.Model.Deriv
+import TnVerif.Model.Automata
 /-
   Line-protocol driver (DESIGN §2.6).  One request per line on stdin, one answer per line on
   stdout.  Tokens are separated by blanks; numbers are integers or `p/q`.
@@ -257,6 +258,15 @@ def run (cmd : String) : PM String := do
   | "partial" => do
       let d ← pNat; let order ← pNat; let c ← pQ; let per ← pNat; let t ← pTensor
       return "ok " ++ showTensor ((t.partialN d c (per != 0) order).memo)
+  | "weight_one_hot" => do
+      let r ← pNat; let nss ← pNatList
+      return "ok " ++ showTensor (weightOneHot (R := Q) r nss)
+  | "weight_mask" => do
+      let W ← pNatList; let r ← pNat; let nss ← pNatList
+      return "ok " ++ showTensor (weightMask (R := Q) W r nss)
+  | "weight" => do
+      let ns ← pNat; let n ← pNat
+      return "ok " ++ showTensor (weightT (R := Q) ns n)
   | _ => throw s!"unknown command {cmd}"
 
 def handle (line : String) : String :=
